@@ -218,6 +218,8 @@ MkGen(x) ==
     [] x.kind = "qpages" -> NewPagesQuery(x.ps, x.oc)
     [] x.kind = "qnet" -> NewNetQuery(x.out, x.auto)
     [] x.kind = "qlinks" -> NewLinksQuery(x.ps, x.out)
+    [] x.kind = "qchildren" -> NewChildrenQuery(x.id, x.ps)
+    [] x.kind = "qpagelinks" -> NewPageLinksQuery(x.id, x.ps, TRUE, TRUE, TRUE)
     [] OTHER -> QueryGen
 
 CoopRam(rm, gs, S) ==
@@ -263,6 +265,9 @@ CoopClauses(st, rm, d, gs, S, post, o0, o1) ==
       <<"bind.report", isq \/ ~S.a.done \/ (r.g.pages = S.pages /\ r.g.created = S.created)>>,
       <<"bind.qresult", (gs[S.a.g].kind = "qpages" /\ S.a.done /\ S.exc = "") => r.g.acc = S.a.result>>,
       <<"bind.qlinks",  (gs[S.a.g].kind = "qlinks" /\ S.a.done /\ S.exc = "") => r.g.acc = SeqSet(S.a.weids)>>,
+      <<"bind.qchildren", (gs[S.a.g].kind = "qchildren" /\ S.a.done /\ S.exc = "") => r.g.acc = SeqSet(S.a.weids)>>,
+      <<"bind.qpagelinks", (gs[S.a.g].kind = "qpagelinks" /\ S.a.done /\ S.exc = "") =>
+                              r.g.acc = [j \in 1..Len(S.a.net) |-> <<S.a.net[j].s, S.a.net[j].t, S.a.net[j].w>>]>>,
       <<"bind.qnet",    (gs[S.a.g].kind = "qnet" /\ S.a.done /\ S.exc = "") => r.g.graph = Trip3(S.a.net)>>,
       <<"bind.trie",   r.st.trie = post.trie>>,
       <<"bind.links",  r.st.ls = post.ls>>,
